@@ -90,3 +90,38 @@ Proof.
   intros bn ts [H|[H|[]]]; inversion H; subst; intros [E|[]]; discriminate.
 Qed.
 Print Assumptions C16_pairing_refuted.
+
+(* Every writer of the two maps (Model/TxPairing.v, pstep: filter_block, add_fetched_tx - which never overwrites a recorded
+   transaction -, add_fetched_header, and rollback_to_block which writes none), tied to the real Storage by op px after every
+   operation.  [consistent]: no height is written with two different block hashes; storing the same header again, by any
+   writer and in any order, is allowed. *)
+Theorem C16_pairing_truthful_for_every_writer :
+  forall ops t bh,
+    consistent (records ops) ->
+    reported_block (prun ops) t = Some bh ->
+    exists bn ts, In (bh, bn, ts) (records ops) /\ In t ts.
+Proof. exact pairing_truthful_ops. Qed.
+Print Assumptions C16_pairing_truthful_for_every_writer.
+
+(* the hypothesis is met by a history with repeated writes of one header, and the conclusion has content there *)
+Example C16_pairing_every_writer_nonvacuous :
+  let ops := [PX_fetched_header 1001 30; PX_fetched_tx 1001 30 7; PX_filter 1002 31 [8; 9]; PX_rollback 31; PX_fetched_tx 1002 31 7] in
+  consistent (records ops) /\ reported_block (prun ops) 7 = Some 1001 /\ reported_block (prun ops) 9 = Some 1002.
+Proof.
+  split; [|split; vm_compute; reflexivity].
+  intros bh bh' bn ts ts' H H'. cbn in H, H'.
+  repeat match goal with
+         | H : _ \/ _ |- _ => destruct H as [H|H]
+         | H : False |- _ => destruct H
+         | H : (_, _, _) = (_, _, _) |- _ => inversion H; clear H; subst
+         end; try reflexivity; discriminate.
+Qed.
+
+(* the flip: a height re-pointed to a sibling and the first header never written again (KNOWN FINDING, same class) *)
+Theorem C16_pairing_every_writer_refuted :
+  exists ops t bh, reported_block (prun ops) t = Some bh /\ forall bn ts, In (bh, bn, ts) (records ops) -> ~ In t ts.
+Proof.
+  exists [PX_fetched_tx 1001 30 7; PX_fetched_header 2001 30], 7, 2001. split; [vm_compute; reflexivity|].
+  intros bn ts Hin. cbn in Hin. destruct Hin as [H|[H|[]]]; inversion H; subst; intros Hx; destruct Hx.
+Qed.
+Print Assumptions C16_pairing_every_writer_refuted.
